@@ -353,7 +353,10 @@ theorem kepler_equation_of_search {e : ℝ} (he0 : 0 ≤ e) (he1 : e < 1) {M f m
     have h1 := Real.arctan_lt_pi_div_two (Real.sqrt ((1.0 + e) / (1.0 - e)) * ptan (e0 * f / 2.0))
     have h2 := Real.neg_pi_div_two_lt_arctan (Real.sqrt ((1.0 + e) / (1.0 - e)) * ptan (e0 * f / 2.0))
     rw [abs_lt]; norm_num; constructor <;> linarith
+  have hguard : ple (1.0 : ℝ) e = false := by
+    unfold ple; rw [decide_eq_false_iff_not]; norm_num; exact he1
   unfold kepler_equation
+  simp only [hguard, Bool.false_eq_true, if_false]
   simp only [hred, hs, fdiv_ok hq, fsqrt_ok hq0, angle_of_rad_small habs, radians_degrees, angle_of_rad_small hv]
   simp only [patan, ptan]
   norm_num
